@@ -38,9 +38,10 @@ ChangeLiabShares(b, d, bypass) ==
   THEN E("BankLiabilityCapacityExceeded") ELSE b2
 UtilizationOk(b) == ~BLt(AssetAmount(b, b.tas), LiabAmount(b, b.tls))
 RemainingDepositCapacity(b) ==
-  IF ~DepositLimitActive(b) THEN U64MAX
+  IF ~DepositLimitActive(b) THEN [v |-> U64MAX]
   ELSE LET cur == AssetAmount(b, b.tas) lim == FOfBig(b.cfg.deposit_limit) IN
-       IF BGe(cur, lim) THEN BZero ELSE FToInt(FFloor(BSub(BSub(lim, cur), FOne)))
+       \* less than one token of room counts as none (before the fix of F8 the subtraction below went negative: MathError)
+       IF BGe(BAdd(cur, FOne), lim) THEN [v |-> BZero] ELSE LET r == FFloor(BSub(BSub(lim, cur), FOne)) IN IF BIsNeg(r) THEN E("MathError") ELSE [v |-> FToInt(r)]
 
 \* ---- interest ------------------------------------------------------------------------------
 RateFromU32(r) == FMul(FDiv(FOfBig(r), IC_U32_MAX), FOfInt(10))
